@@ -72,7 +72,7 @@ func checkC20(c *Ctx) (string, []string) {
 		ok := i != nil && floorArg != nil && lo != nil
 		why := ""
 		if ok {
-			for k := int64(0); k <= 5000 && ok; k++ {
+			for k := int64(0); k <= c.Deep(5000, 300000) && ok; k++ {
 				env := intEnv{params: map[ssa.Value]int64{i: k}}
 				f, ok1 := evalInt(floorArg, env, 0)
 				l, ok2 := evalInt(lo, env, 0)
@@ -239,7 +239,7 @@ func checkC20(c *Ctx) (string, []string) {
 		})
 		ok, why := baseVal != nil && len(idx) >= 1, "base assignment store not found"
 		if ok {
-			for _, cv := range [][2]int64{{2, 6}, {341, 1023}, {3, 7}, {16, 100}} {
+			for _, cv := range append([][2]int64{{2, 6}, {341, 1023}, {3, 7}, {16, 100}}, c20MoreParams(c)...) {
 				for k := int64(0); k < cv[1] && ok; k++ {
 					good := false
 					for _, ip := range idx {
@@ -302,4 +302,20 @@ func checkC20(c *Ctx) (string, []string) {
 	}
 	return "Shuffle and assignment mechanisms decided statically: the number sequence's block counter and byte offsets (evaluated symbolically for i = 0..5000), the Fisher-Yates step (selection index, swap, recursion, prepend), purity of the call trees (no map order, randomness, clock, goroutines, no package state other than protocol parameters), freshness of every slice handed to the in-place shuffle (who-may-call over the module), the base assignment ⌊C·i/V⌋ (evaluated for four parameter sets), rotation (x+n) mod C with n = ⌊(slot mod E)/R⌋, and the G / G* argument selection.",
 		[]string{"canonical renderer; pure integer-expression evaluator", "not decided: that the produced permutation equals GP's as a value for every input (needs execution); behaviour of G* in the first R slots of the chain (τ' − R wraps)"}
+}
+
+// c20MoreParams: additional (C, V) pairs for the thorough tier.
+func c20MoreParams(c *Ctx) [][2]int64 {
+	if c.Tier != "thorough" {
+		return nil
+	}
+	var out [][2]int64
+	for _, C := range []int64{1, 2, 5, 7, 64, 341, 512} {
+		for _, V := range []int64{1, 3, 6, 10, 99, 1000, 1023, 4096} {
+			if C <= V {
+				out = append(out, [2]int64{C, V})
+			}
+		}
+	}
+	return out
 }
